@@ -11,7 +11,7 @@ from ..sysmodel import (Trees, SIG_MID, SIG_DEEP, spec_from_forest, with_phases,
 from .. import phys
 
 PROP = "C06"
-WANT = ("C01", "C04")
+WANT = ("C01", "C04", "TP")
 CMPCOLS = ["Vin (V)", "Vout (V)", "Iin (A)", "Iout (A)", "Power (W)", "Loss (W)", "Efficiency (%)"]
 
 
@@ -97,17 +97,25 @@ def check_case(case):
     spec = with_phases(base, phases, dict(zip(names, case["assign"])))
     if case.get("pc_first"):
         spec["pc_first"] = True
-    s, obs = phys.solve_and_check(res, spec, WANT)
+    s, obs = phys.solve_and_check(res, spec, WANT, ta=-15.0)
     if obs is None:
         return res
     d = resolve(spec)
-    df, _ = quiet_call(s.solve)
+    # a REJECTED redefinition of the phases (reserved name, not in first position) must leave the phases in force
+    try:
+        s.set_sys_phases({list(phases)[0]: 7.0, "N/A": 1.0, "later": 2.0})
+        res.v(("C06.reserved-phase-name-accepted",), "")
+    except ValueError:
+        pass
+    if s.get_sys_phases() != dict(phases):
+        res.v(("C06.rejected-phase-definition-took-effect",), "phases now %r" % (s.get_sys_phases(),))
+    df, _ = quiet_call(s.solve, ta=-15.0)
     configured = any(a is not None for a in case["assign"])
     sleepers = False
     for ph in phases:
         # (b) single-phase call == rows of that phase
         try:
-            d1, _ = quiet_call(s.solve, phase=ph)
+            d1, _ = quiet_call(s.solve, phase=ph, ta=-15.0)
             sub = df[df["Phase"] == ph].reset_index(drop=True)
             # a column that is blank for every row of this phase (temperature columns of a phase without any rise) counts as absent
             sub = sub[[c for c in sub.columns if any(x != "" for x in sub[c].tolist())]]
